@@ -66,7 +66,24 @@ RULE = (
     "spelling, empty index lists, the 0 x n subscript array, empty linear lists / arrays / slices, with scalar, zero, "
     "empty-array and empty-tensor right-hand sides (never combined with growth) must leave shape and values alone; "
     "reads through empty subscript arrays / linear keys return empty vectors.  Only the classes of *open* findings "
-    "are excluded from the clean / forked histories; repaired classes run in their natural form there too."
+    "are excluded from the clean / forked histories; repaired classes run in their natural form there too.  Round 4: "
+    "(state after a rejected request) about one step in seven of every history, and the middle of every case of the cell "
+    "history/rejected, is an ill-formed request - subscript array with the wrong number of values / values in the other "
+    "orientation / a negative or (dense) out-of-range negative subscript / too few columns, region key with an array of "
+    "the wrong shape (dense) or an index list that does not match the sparse right-hand side, ndarray / dense tensor "
+    "assigned to a sparse region, negative integer below -extent, linear indices beyond the extent or with the wrong "
+    "number of values, any linear assignment to a sparse tensor, an open slice for a mode that does not exist (sparse), "
+    "reads with too many key entries / out-of-range rows / too many columns - generated on purpose also where the "
+    "request would have grown the tensor; the call must raise, the holder must afterwards be well-formed, have the "
+    "model's shape and values and the same stored subs / vals / data as before, the key and value objects handed in "
+    "must be unchanged, every other live object of a forked history is judged again, and the valid steps that follow "
+    "are judged against the model as if the request had not happened.  (presentation of valid arguments) in every "
+    "history and single-operation cell one key in three is presented with subscript / linear-index / index arrays and "
+    "numpy integer scalars in int32 / uint8 / uint16 / uint64 / intp, one array key in four and one value array in "
+    "three as a read-only and / or non-contiguous view; in integer-valued histories value arrays are float32 half of "
+    "the time and integer scalars numpy int64 / int32 / uint8 / float32 scalars one time in four; the oracle is the "
+    "same model (the same request must give the same answer).  (process environment) one history in four runs with "
+    "the root logger at DEBUG."
 )
 ASSUMPTIONS = [
     "data movement only: every comparison is exact (NaN-aware equality, -0.0 == 0.0)",
@@ -112,6 +129,18 @@ ASSUMPTIONS = [
     "as in the docstring examples of both classes",
     "integer subscripts are python ints, in about one key out of six numpy.int64; scalar right-hand sides are python "
     "float / python int / numpy.float64 (no numpy integer scalars: sptensor documents 'scalar' and tests int/float)",
+    "rejected requests (round 4): only forms that the holder documents as invalid or rejects on every input on the "
+    "unchanged tree are demanded to raise (established by observation; per holder, see bad_applies): e.g. a (1, p) row "
+    "of values or a length-one vector for p subscripts is accepted by the dense tensor (NumPy broadcasting) and is not "
+    "demanded to fail, in-range negative subscripts in a dense subscript array are accepted, a sparse tensor of the "
+    "wrong extent assigned through slices is accepted, out-of-range reads of a sparse tensor return 0; where the "
+    "unchanged tree raises but leaves the holder changed (dense growth before the NumPy assignment, sparse order "
+    "growth before the value checks, sparse region growth before the value type is looked at) or does not raise at "
+    "all although the dense tensor and the sparse subscript-array form do (negative integer below -extent in a sparse "
+    "region assignment) the class carries a tag and an open known finding (C04-R1..R4)",
+    "float32 value arrays only meet integer-valued histories (an empty sparse tensor adopts the dtype of the first "
+    "value column; later float64 values assigned into a float32 holder are rounded by NumPy - dtype semantics as for "
+    "int64 holders); tuples / ranges as index lists are not generated (sptensor reads refuse them by name)",
     "known-finding classes are decided by pure functions of (operation, model state, S.subs/S.shape before the "
     "operation) in _c04_model.dense_tags / sparse_tags; a failure in an operation that carries no tag can never be "
     "matched by a known finding",
@@ -137,11 +166,14 @@ KNOWN_TAGS = (
     "empty-list",
     "empty-subs",
     "empty-linlist",
+    "np-scalar-rhs",
+    "uint64-subs",
+    "unsigned-key-growth",
 )
 
 # tags of the classes whose known finding is still open: only these are excluded by construction from the clean / forked
 # histories; the classes of repaired findings keep their [tag] in the clause name but run in their natural form
-OPEN_TAGS = ("lists-paired", "adv-split", "empty-list", "empty-subs", "empty-linlist")
+OPEN_TAGS = ("lists-paired", "adv-split", "empty-list", "empty-subs", "empty-linlist", "np-scalar-rhs", "uint64-subs", "unsigned-key-growth")
 
 POKE = 987654.0  # the value written into every object a read returns, before the source is judged again
 
@@ -212,7 +244,10 @@ def dodge_write(X, holder: str, shape, key, rhs, tags) -> None:
 def dodge_read_key(holder: str, shape, key):
     if holder == "T":
         return M.as_subs(shape, key)[0]
-    return dict(key, k=[dict(l=list(e["a"])) if M.elem_kind(e) == "arr" else e for e in key["k"]])
+    if key["f"] != "tuple":
+        return {k: v for k, v in key.items() if k not in ("np", "dt")}
+    return dict({k: v for k, v in key.items() if k not in ("np", "dt")},
+                k=[dict(l=list(e["a"])) if M.elem_kind(e) == "arr" else e for e in key["k"]])
 
 
 def _wf_clause(probs) -> str:
@@ -238,12 +273,155 @@ def check_write(ctx, what: str, X, holder: str, B: np.ndarray, ez=frozenset()) -
         return False
     if holder == "S":
         probs = ref.sptensor_problems(X, allow_explicit_zero=bool(ez))
+        if not probs and X.subs.size and np.asarray(X.subs).dtype == np.uint64:
+            # uint64 + int64 has no common integer type: the next entry appended turns the subscripts into float64
+            probs = ["subs-dtype-uint"]
+        if not probs and any(isinstance(n, np.unsignedinteger) for n in X.shape):
+            # an unsigned extent overflows / turns into float64 in the next index computation that meets a negative
+            # or an int64 number (S[-1, 0], a region read): the shape is to hold integers that behave as such
+            probs = ["shape-entry-unsigned"]
         if ez and not probs:
             probs = _stray_zeros(X, ez)
         if not ctx.check(not probs, f"{what}:{_wf_clause(probs)}", probs):
             return False
     D = ref.den(X)
     return ctx.check(ref.same_exact(D, B), f"{what}:values", ref.diff_info(D, B))
+
+
+# --------------------------------------------------------------------------
+# (round 4) rejected requests as steps of a history: the call must raise, and the object must afterwards be the one
+# it was (same array, well-formed, same stored parameterisation); the operands handed in stay what they were
+# --------------------------------------------------------------------------
+
+REJECT_TAGS = ("rejected-grown", "rejected-order-growth", "rejected-region-grown", "neg-oob-region")
+_T_GROW_KINDS = ("subs-count", "subs-orient", "subs-neg", "region-shape", "region-list")
+
+
+def bad_applies(h: str, shape, op) -> bool:
+    """is the request one that holder h documents / consistently treats as ill-formed (established on the unchanged
+    tree; a form the holder accepts is not a rejected-request case)"""
+    kind, rw = op["kind"], op["rw"]
+    if kind in ("region-shape",):
+        return h == "T"
+    if kind in ("region-badvalue", "open-slice-new-mode"):
+        return h == "S"
+    if kind == "region-list":
+        return h == "S" or not M.dense_tags("write", shape, op["key"], dict(r="array"))
+    if kind == "region-neg-oob":
+        return h == "T" or rw == "w"
+    return True
+
+
+def bad_tags(h: str, shape, op) -> List[str]:
+    kind, key = op["kind"], op["key"]
+    if op["rw"] != "w":
+        return []
+    if h == "T" and kind in _T_GROW_KINDS and list(M.grown_shape(shape, key)) != list(shape):
+        return ["rejected-grown"]
+    if h == "S" and kind in ("subs-count", "subs-orient") and len(key["rows"][0]) > len(shape):
+        return ["rejected-order-growth"]
+    if h == "S" and kind == "region-badvalue" and list(M.grown_shape(shape, key)) != list(shape):
+        return ["rejected-region-grown"]
+    if h == "S" and kind == "region-neg-oob":
+        return ["neg-oob-region"]
+    return []
+
+
+def bad_request(h: str, shape, op):
+    """(key object, value object | None) of the ill-formed request in the form holder h would be given it"""
+    key = M.py_key(op["key"])
+    if op["rw"] == "r":
+        return key, None
+    v = op["val"]
+    if v["t"] == "scalar":
+        return key, float(v["v"])
+    if v["t"] == "vec":
+        a = np.array(v["v"], dtype=float)
+        if v["orient"] == "natural":  # the documented orientation, the wrong number of values
+            return key, (a.reshape(-1, 1) if h == "S" else a)
+        if h == "T":  # the right number of values in the orientation the holder does not take
+            return key, a.reshape(-1, 1)
+        return key, (a if v["orient"] == "flat" else a.reshape(1, -1))
+    R = M.arr_F(v["shape"], v["v"])
+    if op["kind"] == "region-list" and h == "S":
+        return key, M.py_rhs(dict(r="array", v=v["v"], sp="sorted"), "S", v["shape"])
+    R = np.array(R, order="F")
+    return key, (ttb.tensor(R, tuple(v["shape"])) if v["as"] == "tensor" else R)
+
+
+def _operand_copy(o):
+    if isinstance(o, np.ndarray):
+        return o.copy()
+    if isinstance(o, (ttb.tensor, ttb.sptensor)):
+        return ref.den(o)
+    if isinstance(o, tuple):
+        return tuple(_operand_copy(e) for e in o)
+    return copy.deepcopy(o)
+
+
+def _operand_same(o, c) -> bool:
+    if isinstance(o, (ttb.tensor, ttb.sptensor)):
+        return _shape_of(o) == c.shape and ref.same_exact(ref.den(o), c)
+    if isinstance(o, np.ndarray):
+        return o.shape == c.shape and o.dtype == c.dtype and bool(np.array_equal(o, c))
+    if isinstance(o, tuple):
+        return len(o) == len(c) and all(_operand_same(a, b) for a, b in zip(o, c))
+    return type(o) is type(c) and o == c
+
+
+def same_state(ctx, what: str, X, h: str, snap, A: np.ndarray, ez) -> bool:
+    """X after a rejected request: well-formed, the model's shape and values, and the parameterisation it had"""
+    if h == "S":
+        probs = ref.sptensor_problems(X, allow_explicit_zero=True)
+        if not ctx.check(not probs, f"{what}:{_wf_clause(probs)}", probs):
+            return False
+    if not ctx.check(_shape_of(X) == A.shape, f"{what}:shape", f"{_shape_of(X)} vs model {A.shape}"):
+        return False
+    if not check_write(ctx, what, X, h, A, ez):
+        return False
+    if h == "S":
+        same = (np.array_equal(np.asarray(X.subs).reshape(-1), np.asarray(snap.subs).reshape(-1))
+                and (X.vals.size == 0 or np.asarray(X.vals).dtype == np.asarray(snap.vals).dtype)
+                and np.array_equal(np.asarray(X.vals, dtype=float).reshape(-1), np.asarray(snap.vals, dtype=float).reshape(-1),
+                                   equal_nan=True))
+    else:
+        same = np.asarray(X.data).dtype == np.asarray(snap.data).dtype and np.array_equal(
+            np.asarray(X.data, dtype=float), np.asarray(snap.data, dtype=float), equal_nan=True)
+    return ctx.check(bool(same), f"{what}:stored-parameterisation", "subs / vals / data differ from before the request")
+
+
+def rejected_step(ctx, st: "State", op, holders=("T", "S"), try_known=True) -> None:
+    A = st.A
+    shape = list(A.shape)
+    kind = op["kind"]
+    ctx.label("x-" + kind)
+    for h in holders:
+        if not st.alive[h] or not bad_applies(h, shape, op):
+            continue
+        tags = bad_tags(h, shape, op)
+        what = f"{h}.rejected-{kind}{_suffix(tags)}"
+        if tags and not try_known:
+            ctx.label(*[f"excluded:{t}" for t in tags])
+            continue
+        if tags:
+            ctx.label(*[f"exercised:{t}" for t in tags])
+        X = st.X[h]
+        snap = copy.deepcopy(X)
+        k, v = bad_request(h, shape, op)
+        kc, vc = _operand_copy(k), _operand_copy(v)
+        ctx.label(f"x-{h}-" + ("write" if op["rw"] == "w" else "read"))
+        if op["rw"] == "w" and op["key"]["f"] in ("subs", "tuple") and kind in _T_GROW_KINDS + ("region-badvalue",) and (
+                list(M.grown_shape(shape, op["key"])) != shape):
+            ctx.label(f"x-{h}-would-have-grown")
+        ok = ctx.raises(what, (lambda: X.__setitem__(k, v)) if op["rw"] == "w" else (lambda: X[k]))
+        ok = same_state(ctx, what, X, h, snap, A, st.ez) and ok
+        ok = ctx.check(_operand_same(k, kc) and _operand_same(v, vc), f"{what}:operands-changed") and ok
+        if not ok:
+            if tags:
+                st.X[h] = snap  # known class: the history goes on with the object as it was
+            else:
+                st.alive[h] = False
+    st.after_rejected = True
 
 
 def acceptable_shapes(shape, key):
@@ -353,6 +531,7 @@ class State:
         self.last_read = {}  # holder -> the object its last read returned (after the poke), None when not usable
         self.kept_rhs = []  # (holder, right-hand-side object, array it must still denote at the end)
         self.role = "source"
+        self.after_rejected = False
 
     @classmethod
     def of_read(cls, parent: "State", model: np.ndarray):
@@ -370,6 +549,7 @@ class State:
         # stored zeros handed over by a source that legitimately holds some may sit anywhere the model is zero
         st.ez = frozenset(tuple(int(i) for i in p) for p in np.argwhere(st.A == 0)) if parent.ez else frozenset()
         st.grew, st.nt, st.last_read, st.kept_rhs, st.role = False, False, {}, [], "read-result"
+        st.after_rejected = False
         return st
 
 
@@ -401,6 +581,8 @@ def _stored_unsorted(S) -> bool:
 
 def step(ctx, st: State, op: Dict[str, Any], holders=("T", "S"), try_known=True) -> None:
     """Apply one operation of the history to the model and to every live holder."""
+    if op["op"] == "x":
+        return rejected_step(ctx, st, op, holders, try_known)
     A = st.A
     shape = list(A.shape)
     key, rhs = op["key"], op.get("rhs")
@@ -431,9 +613,15 @@ def step(ctx, st: State, op: Dict[str, Any], holders=("T", "S"), try_known=True)
             ctx.label("mixed-zero-nonzero")
         if not pos_w:
             ctx.label("w-empty-request", "w-empty-request-" + form)
+        if st.after_rejected:
+            ctx.label("valid-write-after-rejected-request")
+        _label_presentation(ctx, key, rhs)
     else:
         expect = M.model_read(A, key)
         ctx.label(f"r-{form}")
+        if st.after_rejected:
+            ctx.label("valid-read-after-rejected-request")
+        _label_presentation(ctx, key, None)
         if expect[0] == "vector" and expect[1].size == 0:
             ctx.label("r-empty-request")
         if form == "region" and not np.any(expect[1]):
@@ -502,6 +690,20 @@ def step(ctx, st: State, op: Dict[str, Any], holders=("T", "S"), try_known=True)
     if is_write:
         st.A = B
         st.ez = ez
+
+
+def _label_presentation(ctx, key, rhs) -> None:
+    if key.get("dt"):
+        ctx.label("key-" + key["dt"])
+    if key.get("mem"):
+        ctx.label("key-" + key["mem"])
+    if rhs is not None:
+        if rhs.get("f32"):
+            ctx.label("rhs-float32")
+        if rhs.get("mem"):
+            ctx.label("rhs-" + rhs["mem"])
+        if rhs.get("nps"):
+            ctx.label("rhs-numpy-scalar-" + rhs["nps"])
 
 
 def _edit_rhs(R):
@@ -852,6 +1054,181 @@ def _rhs(draw, shape, key, vkind: str):
     return dict(r="vec", v=vals, **{"as": draw(st.sampled_from(["ndarray", "list"]))}, **extra)
 
 
+@st.composite
+def _present_key(draw, key):
+    """(round 4) the same key as an ordinary caller may hold it: subscript / index arrays and numpy integer scalars in
+    int32 / uint8 / uint16 / uint64 / intp, arrays read-only and / or as non-contiguous views"""
+    has_arr = key["f"] in ("subs", "linarr") or (key["f"] == "tuple" and any(M.elem_kind(e) == "arr" for e in key["k"]))
+    has_int = (key["f"] == "tuple" and any(M.is_int(e) for e in key["k"])) or key["f"] == "lin"
+    if (has_arr or has_int) and draw(st.integers(0, 2)) == 0:
+        key["dt"] = draw(st.sampled_from(["int32", "int32", "uint8", "uint16", "uint64", "intp"]))
+        if has_int and (key["f"] == "lin" or not has_arr or draw(st.booleans())):
+            key["np"] = True
+    if has_arr and draw(st.integers(0, 3)) == 0:
+        key["mem"] = draw(st.sampled_from(["ro", "strided", "ro-strided"]))
+    return key
+
+
+@st.composite
+def _present_rhs(draw, rhs, vkind):
+    """(round 4) value arrays read-only / strided; for integer-valued histories also float32 arrays and numpy integer /
+    float32 scalars (exact in every type used: values are small integers)"""
+    if rhs["r"] in ("vec", "array") and rhs.get("as") in ("ndarray", None) and draw(st.integers(0, 2)) == 0:
+        rhs["mem"] = draw(st.sampled_from(["ro", "strided", "ro-strided"]))
+    if vkind == "int" and rhs["r"] in ("vec", "array") and not rhs.get("idt") and rhs.get("as") != "list" and draw(st.integers(0, 1)) == 0:
+        rhs["f32"] = True
+    if rhs["r"] == "scalar" and rhs.get("int") and draw(st.integers(0, 3)) == 0:
+        rhs["nps"] = draw(st.sampled_from(["int64", "int32", "float32"] + (["uint8"] if rhs["v"] >= 0 else [])))
+    return rhs
+
+
+def _distinct_rows(rows, ext, k):
+    """rows plus further distinct positions of the extent `ext` until there are k of them (or no more exist)"""
+    rows = [list(r) for r in rows]
+    i = 0
+    total = ref.prod(ext)
+    while len(rows) < k and i < total:
+        r = M.lin_to_sub(i, ext)
+        if r not in rows:
+            rows.append(r)
+        i += 1
+    return rows
+
+
+@st.composite
+def _bad_op(draw, shape, tier, cap):
+    """(round 4, state after a rejected request) one ill-formed request for a tensor of the given shape (order >= 1):
+    wrong number of values, values in the other orientation, negative / out-of-range subscripts, too few / too many
+    key entries, right-hand side of the wrong shape or kind, linear indices beyond the extent, an open slice for a mode
+    that does not exist yet.  Requests that would have grown the tensor had they been valid are generated on purpose."""
+    N = len(shape)
+    n = ref.prod(shape)
+    max_order = gen.tier_limits(tier)[0] + 1
+    room = cap / max(1, n)
+    nz = gen.NZ_INT_VALUES
+    kinds = ["subs-count", "subs-count", "subs-orient", "subs-orient", "subs-neg", "region-shape", "region-shape",
+             "region-badvalue", "region-neg-oob", "region-list", "open-slice-new-mode"]
+    if N >= 2:
+        kinds += ["subs-few-cols", "lin-oob", "lin-count", "read-too-many", "read-subs-oob", "read-subs-cols"]
+    kind = draw(st.sampled_from(kinds))
+    if kind == "open-slice-new-mode" and N >= max_order:
+        kind = "subs-count"
+    if kind == "lin-count" and n < 2:
+        kind = "lin-oob"
+
+    def scalar():
+        return dict(t="scalar", v=draw(nz))
+
+    def vec(q, orient="natural"):
+        return dict(t="vec", v=[draw(nz) for _ in range(q)], orient=orient)
+
+    def plain_key(form="region", write=False, kinds_=("int", "slice")):
+        k = draw(_tuple_key(shape, form, write, 1.0, max_order, kinds_))
+        if not M.positions(shape, k, write=False) or M.grown_shape(shape, k) != list(shape):
+            k = dict(f="tuple", k=[dict(s=[None, None]) for _ in shape])
+        k.pop("np", None)
+        return k
+
+    if kind in ("subs-count", "subs-orient", "subs-neg"):
+        key = draw(_subs_key(shape, True, room, max_order, 4))
+        if not key["rows"]:
+            key = dict(f="subs", rows=[[0] * N])
+        key.pop("ncols", None)
+        ext = M.grown_shape(shape, key)
+        if kind == "subs-orient":
+            key["rows"] = _distinct_rows(key["rows"], ext, 2)
+            if len(key["rows"]) < 2:
+                kind = "subs-count"
+        p = len(key["rows"])
+        if kind == "subs-count":
+            q = draw(st.sampled_from([p + 1, p + 2] + ([p - 1] if p >= 3 else [])))
+            return dict(op="x", kind=kind, rw="w", key=key, val=vec(q))
+        if kind == "subs-orient":
+            return dict(op="x", kind=kind, rw="w", key=key, val=vec(p, draw(st.sampled_from(["flat", "row"]))))
+        i, m = draw(st.integers(0, p - 1)), draw(st.integers(0, N - 1))
+        key["rows"][i][m] = 0
+        ext = M.grown_shape(shape, key)
+        key["rows"][i][m] = -ext[m] - 1 - draw(st.integers(0, 1))
+        return dict(op="x", kind=kind, rw="w", key=key, val=scalar() if draw(st.booleans()) else vec(p))
+    if kind == "subs-few-cols":
+        p = draw(st.integers(1, 3))
+        rows = _distinct_rows([], shape[:-1], p)
+        return dict(op="x", kind=kind, rw="w", key=dict(f="subs", rows=rows), val=scalar())
+    if kind in ("region-shape", "region-badvalue"):
+        key = draw(_tuple_key(shape, "region", True, room, max_order, BASIC))
+        key.pop("np", None)
+        if not M.positions(shape, key) or ref.prod(M.grown_shape(shape, key)) > cap:
+            key = dict(f="tuple", k=[dict(s=[None, None]) for _ in shape])
+        rs = M.kept_shape(shape, key, M.grown_shape(shape, key))
+        if kind == "region-shape":
+            rs[draw(st.integers(0, len(rs) - 1))] += 1
+        vals = [draw(nz) for _ in range(ref.prod(rs))]
+        return dict(op="x", kind=kind, rw="w", key=key, val=dict(t="arr", shape=rs, v=vals, **{"as": draw(st.sampled_from(["ndarray", "tensor"]))}))
+    if kind == "region-list":
+        m = draw(st.integers(0, N - 1))
+        k = []
+        for j, nj in enumerate(shape):
+            if j == m:
+                g = 1 if (room >= (nj + 1) / nj and draw(st.booleans())) else 0
+                L = draw(st.integers(1, min(3, nj + g)))
+                lst = list(draw(st.permutations(range(nj + g))))[:L]
+                if g and (nj not in lst):
+                    lst[0] = nj
+                k.append(dict(l=lst))
+            elif draw(st.booleans()):
+                k.append(draw(st.integers(0, nj - 1)))
+            else:
+                a = draw(st.integers(0, nj - 1))
+                k.append(dict(s=[a, draw(st.integers(a + 1, nj))]))
+        key = dict(f="tuple", k=k)
+        rs = M.kept_shape(shape, key, M.grown_shape(shape, key))
+        mm = sum(1 for e in k[:m] if not M.is_int(e))
+        rs[mm] += 1
+        vals = [draw(nz) for _ in range(ref.prod(rs))]
+        return dict(op="x", kind=kind, rw="w", key=key, val=dict(t="arr", shape=rs, v=vals, **{"as": "ndarray"}))
+    if kind == "region-neg-oob":
+        rw = draw(st.sampled_from(["w", "w", "r"]))
+        key = plain_key(draw(st.sampled_from(["full", "region"])), rw == "w")
+        m = draw(st.integers(0, N - 1))
+        key["k"][m] = -shape[m] - 1 - draw(st.integers(0, 1))
+        return dict(op="x", kind=kind, rw=rw, key=key, val=dict(t="scalar", v=draw(st.sampled_from([0.0, 2.0, -3.0]))))
+    if kind == "open-slice-new-mode":
+        key = plain_key(draw(st.sampled_from(["full", "region"])), True)
+        key["k"].append(dict(s=[None, None]))
+        return dict(op="x", kind=kind, rw="w", key=key, val=scalar())
+    if kind == "lin-oob":
+        f = draw(st.sampled_from(["lin", "linlist", "linarr"]))
+        bad = n + draw(st.integers(0, 2))
+        if f == "lin":
+            key = dict(f="lin", i=bad)
+        else:
+            idx = draw(st.lists(st.integers(0, n - 1), min_size=0, max_size=3, unique=True))
+            idx.insert(draw(st.integers(0, len(idx))), bad)
+            key = dict(f=f, i=idx)
+        return dict(op="x", kind=kind, rw=draw(st.sampled_from(["w", "r"])), key=key, val=scalar())
+    if kind == "lin-count":
+        f = draw(st.sampled_from(["linlist", "linarr", "linslice"]))
+        p = draw(st.integers(2, min(4, n)))
+        if f == "linslice":
+            a = draw(st.integers(0, n - p))
+            key = dict(f="linslice", s=[a, a + p])
+        else:
+            key = dict(f=f, i=draw(st.lists(st.integers(0, n - 1), min_size=p, max_size=p, unique=True)))
+        q = draw(st.sampled_from([p + 1, p + 2] + ([p - 1] if p >= 3 else [])))
+        return dict(op="x", kind=kind, rw="w", key=key, val=vec(q))
+    if kind == "read-too-many":
+        key = plain_key(draw(st.sampled_from(["full", "region"])))
+        key["k"].append(draw(st.sampled_from([0, dict(s=[0, 1]), dict(s=[None, None])])))
+        return dict(op="x", kind=kind, rw="r", key=key)
+    if kind == "read-subs-oob":
+        rows = _distinct_rows([], shape, draw(st.integers(1, 3)))
+        i, m = draw(st.integers(0, len(rows) - 1)), draw(st.integers(0, N - 1))
+        rows[i][m] = shape[m] + draw(st.integers(0, 2))
+        return dict(op="x", kind=kind, rw="r", key=dict(f="subs", rows=rows))
+    rows = [r + [0] for r in _distinct_rows([], shape, draw(st.integers(1, 3)))]
+    return dict(op="x", kind="read-subs-cols", rw="r", key=dict(f="subs", rows=rows))
+
+
 EMPTY_START = dict(shape=[], subs=[], vals=[], vkind="int", pattern="none", order="sorted")
 
 
@@ -901,9 +1278,11 @@ def _single(draw, tier, opk: str, form: str):
     shape = start["shape"]
     _, cap, _ = _caps(tier)
     key = draw(_key(shape, opk == "w", form, tier, cap))
+    if len(shape):
+        key = draw(_present_key(key))
     op = dict(op=opk, key=key)
     if opk == "w":
-        op["rhs"] = draw(_rhs(shape, key, start["vkind"]))
+        op["rhs"] = draw(_present_rhs(draw(_rhs(shape, key, start["vkind"])), start["vkind"]))
     return dict(start=start, op=op)
 
 
@@ -925,17 +1304,24 @@ def _history(draw, tier, try_known: bool, fork: bool = False):
             j = draw(st.integers(1, len(models) - 1))
         A = models[j]
         shape = list(A.shape)
+        if len(shape) and draw(st.integers(0, 6)) == 0:
+            # (round 4) an ill-formed request: must be rejected and leave no trace
+            op = draw(_bad_op(shape, tier, cap))
+            if fork:
+                op["on"] = j
+            ops.append(op)
+            continue
         write = draw(st.integers(0, 9)) < (5 if fork else 6) or len(shape) == 0
         form, kinds = None, None
         if fork and not write and len(models) < 4:
             form = draw(st.sampled_from(["region", "region", None]))
             kinds = BASIC if draw(st.booleans()) else None
-        key = draw(_key(shape, write, form, tier, cap, kinds))
+        key = draw(_present_key(draw(_key(shape, write, form, tier, cap, kinds))))
         op = dict(op="w" if write else "r", key=key)
         if fork:
             op["on"] = j
         if write:
-            op["rhs"] = draw(_rhs(shape, key, start["vkind"]))
+            op["rhs"] = draw(_present_rhs(draw(_rhs(shape, key, start["vkind"])), start["vkind"]))
             models[j] = M.model_write(A, key, op["rhs"])
         elif fork and len(models) < 4 and _form(key) == "region" and draw(st.integers(0, 3)) > 0:
             kind, region = M.model_read(A, key)
@@ -945,7 +1331,37 @@ def _history(draw, tier, try_known: bool, fork: bool = False):
                 models.append(child)
                 op["keep"] = True
         ops.append(op)
-    return dict(start=start, ops=ops, try_known=try_known)
+    out = dict(start=start, ops=ops, try_known=try_known)
+    if draw(st.integers(0, 3)) == 0:
+        out["debug_log"] = True  # (round 4) the root logger at DEBUG: the process environment must not matter
+    return out
+
+
+@st.composite
+def _rejected_history(draw, tier):
+    """a short history around one ill-formed request: [valid write] rejected request, valid write, valid read"""
+    _, cap, _ = _caps(tier)
+    start = draw(_start(tier))
+    A = gen.dense_of_sparse_case(start)
+    ops = []
+
+    def valid(write):
+        nonlocal A
+        shape = list(A.shape)
+        key = draw(_present_key(draw(_key(shape, write, None, tier, cap))))
+        op = dict(op="w" if write else "r", key=key)
+        if write:
+            op["rhs"] = draw(_present_rhs(draw(_rhs(shape, key, start["vkind"])), start["vkind"]))
+            A = M.model_write(A, key, op["rhs"])
+        ops.append(op)
+
+    if draw(st.booleans()):
+        valid(True)
+    for _ in range(draw(st.integers(1, 2))):
+        ops.append(draw(_bad_op(list(A.shape), tier, cap)))
+    valid(True)
+    valid(False)
+    return dict(start=start, ops=ops, try_known=True)
 
 
 # --------------------------------------------------------------------------
@@ -954,6 +1370,20 @@ def _history(draw, tier, try_known: bool, fork: bool = False):
 
 
 def _run_history(ctx, case):
+    if case.get("debug_log"):
+        import logging
+        root = logging.getLogger()
+        level = root.level
+        ctx.label("root-logger-DEBUG")
+        root.setLevel(logging.DEBUG)
+        try:
+            return _run_history_body(ctx, case)
+        finally:
+            root.setLevel(level)
+    return _run_history_body(ctx, case)
+
+
+def _run_history_body(ctx, case):
     start = case["start"]
     ctx.label(f"order{len(start['shape'])}", "pattern-" + start["pattern"], "stored-" + start["order"])
     st_ = State(start)
@@ -986,8 +1416,8 @@ def _run_history(ctx, case):
             ctx.label("kept-read-result")
             if fams[-1].alive["T"] != fams[-1].alive["S"]:
                 ctx.label("kept-read-result-one-holder-only")
-        if op["op"] == "w" and len(fams) > 1:
-            # every other live object must still denote its own model
+        if op["op"] in ("w", "x") and len(fams) > 1:
+            # every other live object must still denote its own model (also after a rejected request)
             live_others = 0
             for i, f in enumerate(fams):
                 if i == j:
@@ -995,9 +1425,12 @@ def _run_history(ctx, case):
                 for h in ("T", "S"):
                     if f.alive[h]:
                         live_others += 1
-                        if not check_write(ctx, f"{h}.{f.role}-after-write-to-{cur.role}", f.X[h], h, f.A, f.ez):
+                        verb = "write-to" if op["op"] == "w" else "rejected-request-to"
+                        if not check_write(ctx, f"{h}.{f.role}-after-{verb}-{cur.role}", f.X[h], h, f.A, f.ez):
                             f.alive[h] = False
-            if live_others:
+            if live_others and op["op"] == "x":
+                ctx.label("rejected-request-with-other-objects-alive")
+            elif live_others:
                 forked_writes += 1
                 ctx.label(f"write-to-{cur.role}-with-other-objects-alive")
     # right-hand-side objects handed over earlier still denote what their owner left in them
@@ -1025,6 +1458,15 @@ def history_clean(ctx, case):
 def history_raw(ctx, case):
     """known classes exercised in their natural form on a snapshot; the history goes on behind them"""
     _run_history(ctx, case)
+
+
+@cell("C04/history/rejected", strategy=_rejected_history, quick=300, thorough=3000, shards=(4, 16))
+def history_rejected(ctx, case):
+    """(round 4) ill-formed requests between valid ones: each must raise and leave the tensor (and the operands handed
+    in) as they were - shape, stored entries, well-formedness - and the valid steps that follow agree with the model
+    as if the rejected request had not happened"""
+    _run_history(ctx, case)
+    ctx.nt = True
 
 
 @cell("C04/history/forked", strategy=lambda tier: _history(tier, False, fork=True), quick=260, thorough=8000,
@@ -1219,6 +1661,8 @@ def _case_tags(case) -> set:
         out = set()
         grew = False
         for op in case["ops"]:
+            if op["op"] == "x":
+                continue
             out |= _possible_tags(list(A.shape), A, op, None, grew)
             if op["op"] == "w":
                 B = M.model_write(A, op["key"], op["rhs"])
@@ -1246,6 +1690,26 @@ def _has(tag):
 
 
 PREDICATES = {("has_" + t.replace("-", "_")): _has(t) for t in KNOWN_TAGS}
+
+
+def _all_ops(case):
+    return list(case.get("ops") or []) + ([case["op"]] if isinstance(case.get("op"), dict) else [])
+
+
+def _has_rejected(*kinds):
+    return lambda case: any(o.get("op") == "x" and o.get("kind") in kinds and o.get("rw") == "w" for o in _all_ops(case))
+
+
+PREDICATES["has_rejected_dense_growth"] = _has_rejected(*_T_GROW_KINDS)
+PREDICATES["has_rejected_sparse_order_growth"] = _has_rejected("subs-count", "subs-orient")
+PREDICATES["has_rejected_sparse_region_value"] = _has_rejected("region-badvalue")
+PREDICATES["has_rejected_neg_oob_region"] = _has_rejected("region-neg-oob")
+PREDICATES["has_np_scalar_rhs"] = lambda case: any((o.get("rhs") or {}).get("nps") for o in _all_ops(case))
+PREDICATES["has_uint64_subs"] = lambda case: any(
+    o.get("op") == "w" and o["key"].get("dt") == "uint64" and o["key"]["f"] in ("subs", "lin", "linlist", "linarr", "linslice")
+    for o in _all_ops(case))
+PREDICATES["has_unsigned_key_growth"] = lambda case: any(
+    o.get("op") == "w" and o["key"]["f"] == "tuple" and o["key"].get("dt") in ("uint8", "uint16", "uint64") for o in _all_ops(case))
 PREDICATES["has_dense_list_key"] = lambda case: bool({"lists-paired", "adv-split"} & _case_tags(case))
 
 
